@@ -213,6 +213,12 @@ class C07(Check):
                 ops.append({"op": "read", "timeout": rng.choice([0.05, 0.5, 1.0, 2.0])})
         plan["ops"] = ops
         plan["unsolicited"] = []
+        if rng.random() < 0.04:
+            # many frames nobody reads (other testers' traffic) pile up while the client is idle; then an alive check
+            flood = [{"f": "data_other", "d": 0.0005, "join": rng.random() < 0.5, "v": k % 3} for k in range(rng.choice([33, 40, 100, 250]))]
+            flood.append({"f": "alive", "d": 0.01, "join": False, "len": 0})
+            plan["unsolicited"].append({"at": 0.02, "frames": flood})
+            ops.insert(0, {"op": "sleep", "d": 1.5})
         if not quiet and rng.random() < 0.3:
             plan["unsolicited"].append({"at": rng.choice([0.0005, 0.01, 0.3, 1.05, 2.5]), "frames": [noise() for _ in range(rng.choice([1, 2]))]})
         # network: stratified single split for low indices, then mixed
@@ -276,8 +282,12 @@ class C07(Check):
             await G.run_ops(tr, plan, rec)
             rec.rec("ops_done")
             holder["closed_flag"] = tr._conn._closed
-            await tr.close()
-            await tr.close()
+            for _ in range(2):
+                try:
+                    await tr.close()
+                except Exception as e:  # noqa: BLE001
+                    rec.rec("close_error", error=type(e).__name__)
+                    holder["close_error"] = type(e).__name__
             return "done"
 
         try:
@@ -293,6 +303,8 @@ class C07(Check):
         res["steps"] = out.steps
         gw.delivery_times()
         ops = G.collect_ops(events)
+        if holder.get("close_error"):
+            violation(res, "C07/close", f"C07/close-raised:{holder['close_error']}", f"close() at the end of the conversation raised {holder['close_error']}")
         if out.hung:
             violation(res, "C07/liveness", f"C07/liveness:{out.kind}", f"client never finished ({out.kind}); pending: {out.pending}")
         elif out.kind == "exc":
